@@ -140,7 +140,7 @@ def mux_forces(env, **cfg):
                dmx.compute({XN: f_flat})[n + "_def_mesh"], P[n + "_mesh_point_forces"])
 
 
-@job("c11.exported_forces_wiring", ("C11",),
+@job("c11.exported_forces_wiring", ("C11", "C19"),
      cfgs=[dict(nx=2, ny=3, symmetry=True, side="left", nsurf=1, compressible=True),
            dict(nx=2, ny=2, symmetry=True, side="right", nsurf=3, compressible=True),
            dict(nx=2, ny=2, symmetry=True, side="left", nsurf=2, compressible=False),
@@ -164,7 +164,7 @@ def exported_forces_wiring(env, compressible, **cfg):
         reported = out_of.get("ap.aero_states.%s_sec_forces" % n, [])
         env.holds("C11", "the analysis point reports one panel-force array [%s]" % n, len(reported) == 1, str(reported))
         src = g.conn.get("%s.%s_sec_forces" % (exporters[0], n)) if exporters else None
-        env.holds("C11", "the exporter of the mesh-node forces reads the panel forces the analysis point reports [%s]" % n,
+        env.holds("C11,C19", "the exporter of the mesh-node forces reads the panel forces the analysis point reports [%s]" % n,
                   bool(reported) and src == reported[0], "reads %s, reported %s" % (src, reported))
         consumers = [a for a, so in g.conn.items() if reported and so == reported[0]]
         env.holds("C11", "the coefficient functionals read the same panel forces [%s]" % n,
